@@ -72,7 +72,7 @@ func sigOf(r *Runner, extra ...uint64) uint64 {
 }
 
 func init() {
-	probeNames["C03"] = []string{"commit_ok", "tx_aborted", "reopen", "out_of_memory", "batch_gt12", "batch_dup_page", "stale_write_after_rollback", "wal_page_in_use", "checkpoint_copy"}
+	probeNames["C03"] = []string{"commit_ok", "tx_aborted", "reopen", "out_of_memory", "batch_gt12", "batch_dup_page", "rollback_after_flush", "wal_page_in_use", "checkpoint_with_wal_entries", "maintenance_tx"}
 	register(&PropDef{
 		ID: "C03", Level: "exploration", QuickSec: 50, ThoroSec: 900,
 		Rule: "each run = one seeded txops history (3-20 transactions: alloc/AllocN/full+partial SetBytes/Load+MarkDirty/Page.Flush/Tx.Flush/Free/SetRoot/CheckpointWAL/commit/rollback/close/reopen) on a drawn configuration (page size, max size, init meta area, WAL limit, grow pct, sync mode) under a drawn scheduler policy (stickiness, writer-goroutine weight => write batching); model check inside the write tx, after every transaction and after reopen. Non-trivial = at least one successful commit that overwrote or freed a committed page; distinct = hash of executed op list + configuration + schedule.",
